@@ -235,7 +235,14 @@ class ValueGen:
             n = r.choice([7, 8, 9, 12, 13, 16, 17, 31, 32, 33, 64, 65])
             mk = [lambda i: ("int", i * 3 - 50), lambda i: ("kw", None, "k%d" % i), lambda i: ("str", b"s%d" % i),
                   lambda i: ("sym", "ns", "y%d" % i), lambda i: ("vec", [("int", i)]), lambda i: ("char", 0x100 + i)]
-            distinct = [r.choice(mk)(i) for i in range(n)]
+            if r.random() < 0.4:
+                # all-scalar keys / elements of one kind (the sort-based duplicate strategy), larger sizes too
+                n = r.choice([17, 18, 33, 65, 200])
+                one = r.choice(mk[:4])
+                distinct = [one((i * 7919) % 1000 + (1000 if i % 2 else 0)) for i in range(n)]
+                distinct = list({repr(d): d for d in distinct}.values())
+            else:
+                distinct = [r.choice(mk)(i) for i in range(n)]
             kind = r.choice(["list", "vec", "set", "map", "map", "map"])
             if kind == "map":
                 body = []
